@@ -69,7 +69,15 @@ pub fn run(k: &str, c: &Value) -> Value {
                     Err(_) => json!({"panic": true}),
                 });
             }
-            json!({ "out": out })
+            // the tolerance zone type itself (metrology/tolerance.rs): bounds, membership, size, centre
+            let (a, b) = (bp[0], *bp.last().unwrap());
+            let t = Tolerance::try_new(a, b).ok();
+            let sym = Tolerance::symmetrical(a, b - a);
+            let symn = Tolerance::symmetrical(a, a - b);
+            let zone = json!({"try_rev": Tolerance::try_new(b, a).is_ok(), "ok": t.is_some(),
+                "conforms": t.map(|t| fxs(&c["xs"]).iter().map(|x| t.conforms(*x)).collect::<Vec<_>>()), "size": t.map(|t| hx(t.size())), "center": t.map(|t| hx(t.center())),
+                "sym": [hx(sym.lower), hx(sym.upper)], "symn": [hx(symn.lower), hx(symn.upper)]});
+            json!({ "out": out, "zone": zone })
         }
         // point cloud history. points are (id,0,0); normals (0,0,1); colors [id,0,0]
         "c16.cloud" => {
